@@ -18,22 +18,22 @@ from harness.common.build import InfraError
 from harness.props.c08_facts import facts  # noqa: F401  (translator entry point)
 
 PROP = "C08"
-DRIVER_MODULES = ["PsutilModel.Model.C08Gen", "PsutilModel.Spec.C08"]
+DRIVER_MODULES = ["PsutilModel.Model.C08Gen", "PsutilModel.Spec.C08", "PsutilModel.Proofs.C08Text"]
 NEEDS_EXT = True
 TRUSTED = [
     "C08 renderers (Spec/C08.lean): /proc/meminfo `Name:<blanks>value[ kB]`, /proc/vmstat `name value`, /proc/zoneinfo as `low` watermark lines among arbitrary other lines that do not start with `low` once stripped — transcriptions of the kernel's formats, checked against the live files of the sandbox kernel by the harness on every run",
-    "C08 floats: `pagecache / 2`, `float(used) / total * 100` and `round(x, 1)` are modelled by exact integer/rational arithmetic; exact for magnitudes below 2^53 bytes (8 PiB), percent compared with tolerance 0.05 (+0.1 on a rounding boundary)",
-    "C08 int(): decimal digit strings only (a sign, `_` or non-ASCII digits are outside every kernel's format and outside the model)",
+    "C08 floats: `pagecache / 2`, `float(used) / total * 100` and `round(x, 1)` are modelled by exact integer/rational arithmetic; exact for magnitudes below 2^53 bytes (8 PiB). percent: C08_percent_float_stable (ε explicit) — the double result may differ from the exactly rounded value by one unit in the last place only within ε of a rounding boundary; the harness takes ε = |exact|·2^-51 (two correctly rounded IEEE operations), COUNTS those cases and demands bit-equality with the nearest double of the exactly rounded decimal everywhere else; `round(x, 1)` is taken to be correctly rounded (CPython's dtoa-based float.__round__)",
+    "C08 int(): CPython's base-10 literal grammar on arbitrary bytes (blanks, sign, single underscores between digits; Model/C08Int.lean, compared on ~30 literal shapes in three positions each run). Not modelled: the interpreter-wide 4300-digit limit of int() (sys.set_int_max_str_digits; a figure of more than 4300 digits raises ValueError under the default setting — no kernel prints more than 20). A NEGATIVE literal is where the model stops explicitly (outcome `declined`: the implementation carries on with a negative figure, the kernel prints %lu)",
+    "C08 native record: `cext.linux_sysinfo` is scripted with a 7-tuple laid out as arch/linux/mem.c does (facts sysinfoCMembers/sysinfoCFormat, pinned by cfg_good); the real C function is compared once per run with sysinfo(2) read through ctypes (member order, totalswap × mem_unit = SwapTotal of the live /proc/meminfo)",
 ]
 ASSUMPTIONS = [
-    "/proc/meminfo exists and is readable; MemTotal and MemFree are present (the kernel prints them unconditionally; without them the implementation raises KeyError, recorded not claimed)",
-    "every line of /proc/meminfo has at least two blank-separated fields (kernel format); shorter lines raise IndexError in the implementation and in the model (compared, not claimed)",
-    "no /proc/vmstat counter other than pswpin / pswpout has a name starting with `pswpin` / `pswpout`, names are distinct (true of every kernel up to 6.18); pswpin and pswpout are listed both or neither (adjacent unconditional entries of vm_event_item) — when only one is listed both metrics are reported 0 with the warning",
+    "/proc/meminfo exists and is readable. The refinement theorems assume MemTotal and MemFree present (the kernel prints them unconditionally); what happens otherwise is now claimed too: KeyError for the first missing of the two (C08_never_fails_iff), and on ARBITRARY bytes the outcome is exactly vmFail (C08_vm_fails_iff / C08_vm_ok_iff / C08_parse_total_outcomes: IndexError for a line with < 2 fields, ValueError for a non-literal second field, never another class)",
+    "for the refinement of sin/sout: no /proc/vmstat counter other than pswpin / pswpout has a name starting with `pswpin` / `pswpout`, names are distinct (true of every kernel up to 6.18, checked on the live file each run); the hypothesis is shown NECESSARY (C08_swap_prefix_clash_reads_other_counter, witness replayed on the real code) and the loop is characterised without it (C08_vmstat_break_on_out/_in/_no_pair/_error: the last matching line before the line completing the pair wins). pswpin and pswpout listed both or neither — when only one is listed both metrics are reported 0 with the warning",
     "magnitudes below 2^53 bytes so that the implementation's float arithmetic is exact",
 ]
 MANIFEST = {
-    "level_text": "Machine-checked Lean 4 proofs over a model of virtual_memory()/calculate_avail_vmem()/swap_memory()/usage_percent() that starts from the TEXT of /proc/meminfo, /proc/zoneinfo and /proc/vmstat: round-trip theorems (parser ∘ kernel renderer = abstract map, for every entry list, padding, unit suffix, zone layout) and refinement of the documented formulas (C08_vm_refines, C08_swap_refines) for EVERY subset of the optional keys and all magnitudes, with corollaries fields_exact, used, avail_rule (absent or zero MemAvailable, watermark fallback exact incl. int() truncation), avail_in_range, percent (rounded to one decimal of the exact quotient), percent_range, never_fails, missing_warns_exactly, swap formulas/sysinfo fallback/zero totals. Tied to the code by 24 translator facts (keys per variable, factors, guards, prefixes, record layouts) feeding the proof obligation cfg_good, and by a differential run of the real front-end functions over a fake procfs rendered by the Lean renderers, exhaustive over all 16384 subsets of the optional keys.",
-    "level_note": "Trusted: Lean kernel + {propext, Classical.choice, Quot.sound}; the translator; the correspondence harness; kernel-format renderers; float arithmetic modelled exactly (valid below 2^53 bytes). Hypotheses: MemTotal/MemFree present; vmstat names distinct and prefix-clash free.",
+    "level_text": "Machine-checked Lean 4 proofs over a model of virtual_memory()/calculate_avail_vmem()/swap_memory()/usage_percent() that starts from the TEXT of /proc/meminfo, /proc/zoneinfo and /proc/vmstat: round-trip theorems (parser ∘ kernel renderer = abstract map, for every entry list, padding, unit suffix, zone layout) and refinement of the documented formulas (C08_vm_refines, C08_swap_refines) for EVERY subset of the optional keys and all magnitudes, with corollaries fields_exact, used, avail_rule (absent or zero MemAvailable, watermark fallback exact incl. int() truncation), avail_in_range, percent (rounded to one decimal of the exact quotient), percent_range, never_fails, missing_warns_exactly, swap formulas/sysinfo fallback/zero totals. Extension: the text layer is total over ARBITRARY bytes with CPython's int() literal grammar — C08_meminfo_line_outcomes, C08_parse_meminfo_outcomes, C08_vm_fails_iff / C08_vm_ok_iff (exact converse of never_fails: which exception, exactly when, incl. the zoneinfo `low` lines only when the estimate reads them), C08_parse_total_outcomes / C08_swap_total_outcomes (never another exception class; swap_memory never KeyError), C08_never_fails_iff; the vmstat loop without the no-clash hypothesis (C08_vmstat_break_on_out/_in, _no_pair, _error; C08_swap_prefix_clash_reads_other_counter proves the hypothesis necessary), C08_swap_vmstat_unreadable (OSError branch for any parseable meminfo), the native sysinfo record (C08_sysinfo_native, C08_swap_sysinfo_bytes: counts × mem_unit, facts from arch/linux/mem.c), floats (C08_percent_float_stable / C08_swap_percent_float_stable, ε explicit) and the module cache (C08_vm_sets_total_phymem, C08_memory_percent_uses_primed_total). Tied to the code by 30 translator facts (keys per variable, factors, guards, prefixes, record layouts, the C tuple layout and its unpacking, `_TOTAL_PHYMEM = ret.total`) feeding the proof obligation cfg_good, and by a differential run of the real front-end functions over a fake procfs rendered by the Lean renderers, exhaustive over all 16384 subsets of the optional keys; malformed and arbitrary text is compared against the theorem-backed characterisation (vmFail evaluated by the driver); percent compared bit-exactly away from rounding boundaries; memory_percent() exercised after virtual_memory() on a changed meminfo.",
+    "level_note": "Trusted: Lean kernel + {propext, Classical.choice, Quot.sound}; the translator; the correspondence harness; kernel-format renderers; float arithmetic modelled exactly (valid below 2^53 bytes). Hypotheses (refinement theorems only): MemTotal/MemFree present; vmstat names distinct and prefix-clash free (proved necessary). Not modelled: int()'s 4300-digit limit; negative literals (explicit `declined` outcome).",
     "technique": "Lean 4 round-trip + refinement proofs (case analysis over key presence, linear arithmetic over Int/Rat) + translator-fed proof obligation + differential correspondence exhaustive over key subsets",
     "design_ref": "DESIGN.md §5 C08",
 }
@@ -114,8 +114,10 @@ class Impl:
         calls = []
 
         def fake_sysinfo():
+            # stands in for psutil_linux_sysinfo(): the members of struct sysinfo in the order
+            # arch/linux/mem.c passes them to Py_BuildValue (fact sysinfoCMembers, pinned by cfg_good)
             calls.append(1)
-            return (0, 0, 0, 0, sysinfo[0], sysinfo[1], sysinfo[2])
+            return tuple(sysinfo)
         self.plat.cext.linux_sysinfo = fake_sysinfo
         with warnings.catch_warnings(record=True) as ws:
             warnings.simplefilter("always")
@@ -138,6 +140,44 @@ class Impl:
         return out
 
 
+    PID = 4242
+
+    def phymem(self, meminfo1, meminfo2, st0, rss_pages):
+        """virtual_memory() on world 1, then /proc/meminfo becomes world 2 and
+        Process.memory_percent() is asked: which total did it divide by?"""
+        self._put("meminfo", meminfo1)
+        self._put("zoneinfo", None)
+        self.plat.PAGESIZE = 4096
+        self.fp.write("stat", "cpu  1 2 3 4 5 6 7 8 9 10\ncpu0 1 2 3 4 5 6 7 8 9 10\nbtime 1700000000\n")
+        rest = "1 {0} {0} 0 -1 4194304 0 0 0 0 0 0 0 0 20 0 1 0 100 0 0 18446744073709551615 " \
+               "0 0 0 0 0 0 0 0 0 0 0 0 17 0 0 0 0 0 0 0 0 0 0 0 0 0 0".format(self.PID)
+        self.fp.write("%d/stat" % self.PID, "%d (psv c08) S %s\n" % (self.PID, rest))
+        self.fp.write("%d/statm" % self.PID, "%d %d 3 4 0 5 0\n" % (rss_pages + 7, rss_pages))
+        self.ps._TOTAL_PHYMEM = st0
+        out = {"kind": "ok", "odd": []}
+        with warnings.catch_warnings(record=True):
+            warnings.simplefilter("always")
+            try:
+                r = self.ps.virtual_memory()
+                out["run1"] = {"kind": "ok", "total": r.total}
+            except BaseException as e:  # noqa: BLE001
+                if isinstance(e, (KeyboardInterrupt, SystemExit)):
+                    raise
+                out["run1"] = {"kind": "exc", "exc": type(e).__name__}
+            out["primed"] = self.ps._TOTAL_PHYMEM
+            self._put("meminfo", meminfo2)
+            try:
+                p = self.ps.Process(self.PID)
+                out["percent"] = p.memory_percent()
+            except BaseException as e:  # noqa: BLE001
+                if isinstance(e, (KeyboardInterrupt, SystemExit)):
+                    raise
+                out["percent_exc"] = type(e).__name__
+            out["after"] = self.ps._TOTAL_PHYMEM
+        self.ps._TOTAL_PHYMEM = None
+        return out
+
+
 # ------------------------------------------------------------------------------ comparison
 
 
@@ -145,10 +185,46 @@ def _frac(pair):
     return Fraction(pair[0], pair[1])
 
 
-def _near_boundary(exact, digits=1):
-    x = exact * 10 ** digits
-    f = x - (x.numerator // x.denominator)
-    return abs(f - Fraction(1, 2)) < Fraction(1, 10 ** 7)
+def float_eps(exact):
+    """bound on |x - exact| for x = fl(fl(float(used) / total) * 100): two correctly rounded
+    operations on exact operands (magnitudes < 2^53), each of relative error <= 2^-53"""
+    return abs(exact) * Fraction(1, 2 ** 51)
+
+
+def _near_boundary(exact):
+    """is the exact percent within the float error bound of a rounding boundary (an odd multiple of
+    1/20)? — the only place where C08_percent_float_stable allows the double computation to round
+    the other way (by one unit in the last place)"""
+    y = exact * 20
+    k = y.numerator // y.denominator          # floor
+    cands = (k, k + 2) if k % 2 else (k - 1, k + 1)     # the odd integers around y
+    d = min(abs(y - c) for c in cands) / 20
+    return d <= float_eps(exact)
+
+
+def round1(exact):
+    """exact rational rounded half-even to one decimal, as a Fraction"""
+    y = exact * 10
+    fl = y.numerator // y.denominator
+    r = y - fl
+    if r < Fraction(1, 2):
+        k = fl
+    elif r > Fraction(1, 2):
+        k = fl + 1
+    else:
+        k = fl if fl % 2 == 0 else fl + 1
+    return Fraction(k, 10)
+
+
+def _percent_note(p, want, exact, res, tag, what):
+    """strict: away from a rounding boundary the double must be THE double nearest to the exactly
+    rounded decimal; on a boundary (counted) it may be one unit in the last place away"""
+    if p == want.numerator / want.denominator:
+        return None
+    if exact is not None and _near_boundary(exact) and abs(Fraction(p) - want) <= Fraction(1, 10) + Fraction(1, 10 ** 9):
+        res.count(tag + ":percent_on_rounding_boundary_differs")
+        return None
+    return "percent %r is not %s (%s; exact value %s)" % (p, float(want), what, None if exact is None else float(exact))
 
 
 def cmp_record(impl, ref, exact, is_spec, res, tag):
@@ -164,22 +240,98 @@ def cmp_record(impl, ref, exact, is_spec, res, tag):
                 return "percent is %r, not a float" % (p,)
             if abs(p * 10 - round(p * 10)) > 1e-6:
                 return "percent %r is not rounded to one decimal" % p
+            if exact is not None and _near_boundary(exact):
+                res.count(tag + ":percent_boundary_cases" + ("" if is_spec else "_model"))
             if is_spec:
-                if abs(Fraction(p) - _frac(fr[k])) > Fraction(1, 20) + Fraction(1, 10 ** 9):
-                    return "percent %r is not (…)/total*100 = %s rounded to one decimal" % (p, float(_frac(fr[k])))
+                note = _percent_note(p, round1(_frac(fr[k])), exact, res, tag, "(…)/total*100 rounded to one decimal")
             else:
-                m = _frac(fr[k])
-                if abs(Fraction(p) - m) > Fraction(1, 10 ** 9):
-                    if exact is not None and _near_boundary(exact) and abs(Fraction(p) - m) <= Fraction(1, 10) + Fraction(1, 10 ** 9):
-                        res.count(tag + ":percent_on_rounding_boundary")
-                    else:
-                        return "percent %r differs from the model's %s" % (p, float(m))
+                note = _percent_note(p, _frac(fr[k]), exact, res, tag, "the model's value")
+            if note:
+                return note
         else:
             if not isinstance(fi[k], int) or isinstance(fi[k], bool):
                 return "%s is %r, not an int" % (k, fi[k])
             if fi[k] != fr[k]:
                 return "%s = %r, expected %r" % (k, fi[k], fr[k])
     return None
+
+
+def _raw_outcome(case, impl, out, res, inp):
+    """outcome class against the model AND (raw ops) against the characterisation the theorems are
+    about (`fail` = vmFail / meminfoFail evaluated by the driver: C08_vm_fails_iff, C08_vm_ok_iff,
+    C08_swap_fails_on_meminfo). Returns "model" on a disagreement, "" when the case is settled
+    (exception / declined), None when the records remain to be compared."""
+    model, spec = out["model"], out.get("spec")
+    if model["kind"] == "declined":
+        # int() returned a negative number: the implementation carries on, the model stops (explicit)
+        res.count("raw:declined_negative_literal")
+        return ""
+    if "fail" in out:
+        f = out["fail"]
+        res.count("raw:theorem_backed_outcome")
+        if case["op"] == "vmraw":
+            want = "ok" if f is None else f["kind"]
+            got = model["kind"]
+            if (want, (f or {}).get("exc")) != (got, model.get("exc")):
+                res.disagree("model", inp, impl, model, spec, note="model outcome differs from vmFail (C08_vm_fails_iff): %r" % (f,))
+                return "model"
+        elif f is not None and (f["kind"], f.get("exc")) != (model["kind"], model.get("exc")):
+            res.disagree("model", inp, impl, model, spec, note="model outcome differs from meminfoFail: %r" % (f,))
+            return "model"
+    if impl["kind"] != model["kind"]:
+        res.disagree("model", inp, impl, model, spec, note="outcome kind differs from the model")
+        return "model"
+    if impl["kind"] == "exc":
+        if impl["exc"] != model["exc"]:
+            res.disagree("model", inp, impl, model, spec, note="exception class differs from the model")
+            return "model"
+        res.count("raw:exc:" + impl["exc"])
+        return ""
+    return None
+
+
+def compare_phymem(case, impl, out, res, source):
+    inp = dict(case, source=source)
+    model = {k: out[k] for k in ("run1", "primed", "used_total", "after")}
+    spec_total = out.get("spec_total1")
+    kind = None
+    if out["run1"]["kind"] == "ok":
+        if impl["run1"]["kind"] != "ok":
+            res.disagree("spec", inp, impl, model, spec_total, note="virtual_memory() raised")
+            return "spec"
+        if spec_total is not None and impl["primed"] != spec_total:
+            res.disagree("spec", inp, impl, model, spec_total,
+                         note="_TOTAL_PHYMEM is %r after virtual_memory(), expected MemTotal in bytes = %r (C08_vm_sets_total_phymem)"
+                         % (impl["primed"], spec_total))
+            return "spec"
+        res.count("phymem:primed")
+    elif impl["run1"]["kind"] == "ok":
+        res.disagree("model", inp, impl, model, spec_total, note="model raises, implementation does not")
+        return "model"
+    else:
+        res.count("phymem:failed_call_leaves_cache")
+    if impl["primed"] != out["primed"]:
+        res.disagree("model", inp, impl, model, spec_total, note="_TOTAL_PHYMEM %r, model %r" % (impl["primed"], out["primed"]))
+        return "model"
+    used = out["used_total"]
+    rss = case["rss_pages"] * 4096
+    if used is None:
+        ok = "percent_exc" in impl
+        res.count("phymem:fresh_call_raises")
+    elif used <= 0:
+        ok = impl.get("percent_exc") == "ValueError"
+        res.count("phymem:total_not_positive")
+    else:
+        ok = "percent" in impl and impl["percent"] == (rss / float(used)) * 100
+        res.count("phymem:cached_total_used" if out["primed"] and used == out["primed"] else "phymem:recomputed")
+    if not ok:
+        res.disagree("model", inp, impl, model, spec_total,
+                     note="memory_percent() did not divide by the total the model says (%r)" % (used,))
+        return "model"
+    if impl["after"] != out["after"]:
+        res.disagree("model", inp, impl, model, spec_total, note="_TOTAL_PHYMEM afterwards %r, model %r" % (impl["after"], out["after"]))
+        return "model"
+    return kind
 
 
 def compare_vm(case, impl, out, res, source):
@@ -201,14 +353,9 @@ def compare_vm(case, impl, out, res, source):
         if note:
             res.disagree("spec", inp, impl, model, spec, note=note)
             return "spec"
-    if impl["kind"] != model["kind"]:
-        res.disagree("model", inp, impl, model, spec, note="outcome kind differs from the model")
-        return "model"
-    if impl["kind"] == "exc":
-        if impl["exc"] != model["exc"]:
-            res.disagree("model", inp, impl, model, spec, note="exception class differs from the model")
-            return "model"
-        return None
+    bad = _raw_outcome(case, impl, out, res, inp)
+    if bad is not None:
+        return bad or None
     if exact is None and model["fields"].get("total"):
         t, a = model["fields"]["total"], model["fields"].get("available")
         if isinstance(a, int):
@@ -225,6 +372,12 @@ def compare_vm(case, impl, out, res, source):
 def compare_swap(case, impl, out, res, source):
     model, spec = out["model"], out.get("spec")
     inp = dict(case, source=source)
+    if case.get("expect_sin") is not None:
+        res.count("witness:prefix_clash_replayed")
+        if impl["kind"] != "ok" or impl["fields"]["sin"] != case["expect_sin"] or model["fields"]["sin"] != case["expect_sin"]:
+            res.disagree("model", inp, impl, model, spec, note="the witness of C08_swap_prefix_clash_reads_other_counter "
+                         "no longer replays (sin expected %d)" % case["expect_sin"])
+            return "model"
     if impl["kind"] == "ok" and impl.get("odd"):
         res.disagree("spec", inp, impl, model, spec, note="unexpected warning(s): %s" % impl["odd"])
         return "spec"
@@ -242,14 +395,9 @@ def compare_swap(case, impl, out, res, source):
         if note:
             res.disagree("spec", inp, impl, model, spec, note=note)
             return "spec"
-    if impl["kind"] != model["kind"]:
-        res.disagree("model", inp, impl, model, spec, note="outcome kind differs from the model")
-        return "model"
-    if impl["kind"] == "exc":
-        if impl["exc"] != model["exc"]:
-            res.disagree("model", inp, impl, model, spec, note="exception class differs from the model")
-            return "model"
-        return None
+    bad = _raw_outcome(case, impl, out, res, inp)
+    if bad is not None:
+        return bad or None
     if exact is None and model["fields"].get("total"):
         exact = Fraction(model["fields"]["used"], model["fields"]["total"]) * 100
     note = cmp_record(impl, model, exact, False, res, "swap")
@@ -283,6 +431,11 @@ def py_render(case):
     while the model drivers are still busy; byte equality with the Lean rendering is required
     afterwards (the Lean renderers stay the reference)."""
     op = case["op"]
+    if op == "phymem":
+        def mi_of(es):
+            return b"".join(bytes.fromhex(n) + b":" + _spaces(p + 1) + str(v).encode() + (b" kB" if u else b"") + b"\n"
+                            for n, v, p, u in es)
+        return mi_of(case["entries1"]), mi_of(case["entries2"])
     if op in ("vmraw", "swapraw"):
         second = case.get("zoneinfo") if op == "vmraw" else case.get("vmstat")
         return bytes.fromhex(case["meminfo"]), None if second is None else bytes.fromhex(second)
@@ -316,6 +469,8 @@ def run_cases(ctx, impl, cases):
             files.append((a, b))
             if case["op"] in ("vm", "vmraw"):
                 ims.append(impl.vm(a, b, case["pagesize"]))
+            elif case["op"] == "phymem":
+                ims.append(impl.phymem(a, b, case["st0"], case["rss_pages"]))
             else:
                 ims.append(impl.swap(a, case["sysinfo"], b))
         outs = fut.result()
@@ -323,6 +478,9 @@ def run_cases(ctx, impl, cases):
     for case, im, (a, b), out in zip(cases, ims, files, outs):
         if "bad" in out:
             raise InfraError("driver rejected %r: %s" % (case, out))
+        if case["op"] == "phymem":
+            if bytes.fromhex(out["meminfo1"]) != a or bytes.fromhex(out["meminfo2"]) != b:
+                raise InfraError("Python and Lean renderers disagree on %r" % (case,))
         if case["op"] in ("vm", "swap"):
             second = out.get("zoneinfo") if case["op"] == "vm" else out.get("vmstat")
             if bytes.fromhex(out["meminfo"]) != a or (None if second is None else bytes.fromhex(second)) != b:
@@ -332,12 +490,22 @@ def run_cases(ctx, impl, cases):
 
 
 def compare(case, im, out, res, source):
+    if case["op"] == "phymem":
+        return compare_phymem(case, im, out, res, source)
     if case["op"] in ("vm", "vmraw"):
         return compare_vm(case, im, out, res, source)
     return compare_swap(case, im, out, res, source)
 
 
 # ------------------------------------------------------------------------------ generators
+
+
+def sysc(total, free, unit, rng=None):
+    """the seven members of struct sysinfo (kernel order); the four RAM figures are distinct decoys"""
+    if rng is None:
+        return [1111, 2222, 3333, 4444, total, free, unit]
+    return [rng.randrange(1, 2 ** 34), rng.randrange(1, 2 ** 34), rng.randrange(1, 2 ** 30), rng.randrange(1, 2 ** 30),
+            total, free, unit]
 
 
 def entry(name, val, rng=None, unit=True):
@@ -669,6 +837,35 @@ def raw_vm_cases(rng, n):
              for m, z in fixed]
     toks = [b"MemTotal:", b"MemFree:", b"Cached:", b"MemAvailable:", b"12", b"0", b"kB", b"x", b"7 kB", b"", b"9",
             b"Buffers:", b"1e3", b"0x10", b"12.5"]
+    # int() literal grammar (C08Int.lean) on the value field, and on the zoneinfo watermark
+    est = base + b"Active(file): 10 kB\nInactive(file): 10 kB\nSReclaimable: 10 kB\n"
+    lits = [b"+5", b"-0", b"1_0", b"0_1", b"00012", b"_1", b"1_", b"1__0", b"+", b"-", b"+-5", b"+_5", b"-5", b"\x1c5",
+            b"5\x1f", b"\xd9\xa1", b"5\x00", b"0x10", b"1e3", b"12.5", b"\x855", b"--5", b"1_2_3", b"+0_0", b"-00",
+            b"9" * 40, b"4" * 300]
+    for t in lits:
+        cases.append({"op": "vmraw", "meminfo": (base + b"Buffers: " + t + b" kB\n").hex(), "zoneinfo": None, "pagesize": 4096})
+        cases.append({"op": "vmraw", "meminfo": (b"MemTotal: " + t + b"\nMemFree: 1\n").hex(), "zoneinfo": None, "pagesize": 4096})
+        cases.append({"op": "vmraw", "meminfo": est.hex(), "zoneinfo": (b"  low  " + t + b"\n").hex(), "pagesize": 4096})
+    # zoneinfo consulted or not: a broken `low` line matters only when the estimate reads the file
+    zbad = b"Node 0\n  low\n  low x\n"
+    for mi in (est, est + b"MemAvailable: 0 kB\n", est + b"MemAvailable: 7 kB\n", base, base + b"MemAvailable: 0 kB\n",
+               est.replace(b"SReclaimable", b"SReclaimablX"), est.replace(b"MemFree", b"MemFre"),
+               est.replace(b"MemTotal", b"MemTota"), b"MemFree: 3 kB\nshort\n", b"short\nMemFree: x\n",
+               b"MemTotal: x\nshort\n", est + b"MemAvailable: 0 kB\nMemAvailable: 9 kB\n",
+               est + b"MemAvailable: 9 kB\nMemAvailable: 0 kB\n"):
+        for z in (zbad, None, b"low 1\nlowest 2\n", b"low x\nlow\n", b"low\nlow x\n", b"\x0blow\x0c7\x0b\n"):
+            cases.append({"op": "vmraw", "meminfo": mi.hex(), "zoneinfo": None if z is None else z.hex(), "pagesize": 4096})
+    # arbitrary bytes
+    alphabet = [b" ", b"\t", b"\n", b"\r", b"\x0b", b"\x0c", b":", b"0", b"1", b"9", b"_", b"+", b"-", b"k", b"B", b"\x00",
+                b"\xff", b"\x1c", b"\x85", b"M", b"low", b"MemTotal:", b"MemFree:", b"MemAvailable:", b" 5 "]
+    for _ in range(n):
+        mi = b"".join(rng.choice(alphabet) for _ in range(rng.randrange(0, 14)))
+        if rng.random() < 0.6:
+            mi = b"MemTotal: 100 kB\nMemFree: 40 kB\n" + mi
+        if rng.random() < 0.3:
+            mi += b"\nActive(file): 1\nInactive(file): 2\nSReclaimable: 3\n"
+        z = None if rng.random() < 0.4 else b"".join(rng.choice(alphabet) for _ in range(rng.randrange(0, 10)))
+        cases.append({"op": "vmraw", "meminfo": mi.hex(), "zoneinfo": None if z is None else z.hex(), "pagesize": 4096})
     for _ in range(n):
         lines = [b"MemTotal: 100 kB", b"MemFree: 40 kB"]
         for _ in range(rng.randrange(1, 5)):
@@ -741,7 +938,7 @@ def gen_swap(rng, keys, vstyle, profile):
         es.insert(rng.randrange(len(es) + 1), entry(nm, rng.randrange(2 ** 24), rng, unit))
     unit = rng.choice([1, 1, 4096, 1024])
     st = rng.choice([0, rng.randrange(2 ** 30)])
-    sysinfo = [st, rng.choice([0, rng.randrange(st + 1), st + 5]), unit]
+    sysinfo = sysc(st, rng.choice([0, rng.randrange(st + 1), st + 5]), unit, rng)
     return {"op": "swap", "entries": es, "sysinfo": sysinfo, "vmstat": gen_vmstat(rng, vstyle)}
 
 
@@ -767,15 +964,57 @@ def swap_tags(case, out):
     return tags
 
 
-def raw_swap_cases():
+def raw_swap_cases(rng=None, n=0):
     mi = b"SwapTotal: 1000 kB\nSwapFree: 400 kB\n"
     vs = [b"pswpin\npswpout 3\n", b"pswpin  5\npswpout 3\n", b"pswpin 5 \npswpout 3\n", b"pswpin 5\tx\npswpout 3\n",
           b"pswpin x\n", b"pswpin 5\npswpout\n", b"pswpin_total 9\npswpin 5\npswpout 3\n", b"pswpin 1\npswpin 2\npswpout 3\n",
           b"pswpout 3\npswpout 4\npswpin 1\n", b"pswpin 5\npswpout 3", b"pswpin 5\r\npswpout 3\r\n", b"\n\npswpin 5\n\npswpout 3\n",
           b"pswpin 5\npswpout 3\ngarbage line here\n", b"pswpinpswpout 3\npswpout 2\n"]
-    cases = [{"op": "swapraw", "meminfo": mi.hex(), "sysinfo": [9, 3, 4096], "vmstat": v.hex()} for v in vs]
+    cases = [{"op": "swapraw", "meminfo": mi.hex(), "sysinfo": sysc(9, 3, 4096), "vmstat": v.hex()} for v in vs]
     for m in (b"SwapTotal: 1000 kB\n", b"SwapTotal:\n", b"SwapTotal: x kB\n", b"", b"SwapFree: 1 kB\nSwapTotal: 2 kB\nSwapFree: 0 kB\n"):
-        cases.append({"op": "swapraw", "meminfo": m.hex(), "sysinfo": [9, 3, 4096], "vmstat": b"pswpin 1\npswpout 2\n".hex()})
+        cases.append({"op": "swapraw", "meminfo": m.hex(), "sysinfo": sysc(9, 3, 4096), "vmstat": b"pswpin 1\npswpout 2\n".hex()})
+    # the prefix tests: clashing / repeated names before, between and after the pair; unreadable
+    # fields before and after the break (C08_vmstat_break_on_out/_in, _no_pair, _error)
+    more = [b"pswpin 5\npswpin_x 9\npswpout 3\n", b"pswpin 5\npswpout 3\npswpin_x 9\n", b"pswpout 3\npswpout_y 4\npswpin 1\n",
+            b"pswpout_y 4\npswpout 3\npswpin 1\npswpin 2\n", b"pswpin 1\npswpout 3\npswpout\n", b"pswpin 1\npswpout 3\npswpin x\n",
+            b"pswpin 1\npswpin\npswpout 3\n", b"pswpout x\npswpin 1\n", b"pswpin_x\n", b"pswpin 1\npswpin 2\npswpin 3\n",
+            b"pswpout 1\npswpout 2\n", b"xpswpin 1\npswpout 2\n", b" pswpin 1\npswpout 2\n", b"pswpin +5\npswpout 1_0\n",
+            b"pswpin -5\npswpout 1\n", b"pswpin 1\npswpout -0\n", b"pswpin\t1\npswpout 2\n", b"pswpin 1 2\npswpout  2\n",
+            b"pswpin \x0b7\x0c\npswpout 2\n", b"", b"\n", b"pswpin 7", b"pswpout 7\npswpin 8"]
+    for v in more:
+        cases.append({"op": "swapraw", "meminfo": mi.hex(), "sysinfo": sysc(9, 3, 4096), "vmstat": v.hex()})
+    for m in (b"short\n", b"SwapTotal: -5 kB\n", b"A 1\nB x\nC\n", b"A 1\nC\nB x\n", b"\xff\xfe 1\n", b"SwapTotal: 1_0\nSwapFree: +4\n"):
+        for v in (None, b"pswpin 1\npswpout 2\n", b"pswpin x\n"):
+            cases.append({"op": "swapraw", "meminfo": m.hex(), "sysinfo": sysc(9, 3, 4096), "vmstat": None if v is None else v.hex()})
+    if rng is not None:
+        names = [b"pswpin", b"pswpout", b"pswpin_x", b"pswpout2", b"pgpgin", b"pswp", b"zswpin", b"pswpinpswpout"]
+        vals = [b" 1", b" 22", b" 333", b"", b" x", b"  4", b" 5 6", b" -1", b" +7", b" 8\r", b"\t9"]
+        for _ in range(n):
+            v = b"".join(rng.choice(names) + rng.choice(vals if rng.random() < 0.35 else vals[:3]) + b"\n"
+                         for _ in range(rng.randrange(0, 7)))
+            if rng.random() < 0.2:
+                v = v[:-1]
+            cases.append({"op": "swapraw", "meminfo": rng.choice([mi, b"SwapTotal: 5 kB\n", b""]).hex(),
+                          "sysinfo": sysc(rng.randrange(100), rng.randrange(100), rng.choice([1, 4096]), rng),
+                          "vmstat": v.hex()})
+    return cases
+
+
+def phymem_cases(rng, n):
+    """virtual_memory() then a changed /proc/meminfo then Process.memory_percent(): which total?"""
+    cases = []
+    for i in range(n):
+        t1 = rng.choice([0, 1, 1000, rng.randrange(1, 2 ** 32)])
+        t2 = rng.choice([0, 7, 2000, rng.randrange(1, 2 ** 32)])
+        es1 = [entry("MemTotal", t1, rng), entry("MemFree", rng.randrange(0, t1 + 1), rng), entry("MemAvailable", 1 + t1 // 2, rng)]
+        es2 = [entry("MemTotal", t2, rng), entry("MemFree", rng.randrange(0, t2 + 1), rng), entry("MemAvailable", 1 + t2 // 3, rng)]
+        how = i % 5
+        if how == 1:
+            es1 = es1[1:]            # first call raises KeyError: the cache keeps what it held
+        elif how == 2:
+            es2 = es2[:1]            # the fresh call (if one is needed) raises
+        st0 = rng.choice([None, None, 0, 12345, 4096 * rng.randrange(1, 10 ** 6)])
+        cases.append({"op": "phymem", "entries1": es1, "entries2": es2, "st0": st0, "rss_pages": rng.randrange(0, 10 ** 6)})
     return cases
 
 
@@ -814,7 +1053,7 @@ def validate_renderers(ctx, res):
                 zs.append(["other", ind, line[ind:].hex()])
         outs = ctx.driver().batch([
             {"op": "vm", "entries": es, "zones": zs, "pagesize": 4096},
-            {"op": "swap", "entries": es, "sysinfo": [0, 0, 1], "vmstat": vs}])
+            {"op": "swap", "entries": es, "sysinfo": sysc(0, 0, 1), "vmstat": vs}])
         ok["meminfo"] = bytes.fromhex(outs[0]["meminfo"]) == raw
         ok["zoneinfo"] = bytes.fromhex(outs[0]["zoneinfo"]) == zraw
         ok["vmstat"] = bytes.fromhex(outs[1]["vmstat"]) == vraw
@@ -831,6 +1070,50 @@ def validate_renderers(ctx, res):
         res.notes.append("renderer validation against the live kernel failed: %s" % (bad or ok["error"]))
 
 
+def validate_sysinfo_native(ctx, res):
+    """The REAL psutil_linux_sysinfo() against sysinfo(2) read through ctypes: the tuple must be the
+    struct's members in the order of fact sysinfoCMembers (the stable ones compared exactly), and
+    on this kernel totalswap × mem_unit must be /proc/meminfo's SwapTotal in bytes."""
+    import ctypes
+    info = {}
+    try:
+        class SI(ctypes.Structure):
+            _fields_ = [("uptime", ctypes.c_long), ("loads", ctypes.c_ulong * 3), ("totalram", ctypes.c_ulong),
+                        ("freeram", ctypes.c_ulong), ("sharedram", ctypes.c_ulong), ("bufferram", ctypes.c_ulong),
+                        ("totalswap", ctypes.c_ulong), ("freeswap", ctypes.c_ulong), ("procs", ctypes.c_ushort),
+                        ("pad", ctypes.c_ushort), ("totalhigh", ctypes.c_ulong), ("freehigh", ctypes.c_ulong),
+                        ("mem_unit", ctypes.c_uint), ("_f", ctypes.c_char * 8)]
+        si = SI()
+        if ctypes.CDLL(None, use_errno=True).sysinfo(ctypes.byref(si)) != 0:
+            raise OSError("sysinfo(2) failed")
+        t = ctx.psutil._psplatform.cext.linux_sysinfo()
+        members = ctx.facts_value("sysinfoCMembers") if hasattr(ctx, "facts_value") else \
+            ["totalram", "freeram", "bufferram", "sharedram", "totalswap", "freeswap", "mem_unit"]
+        info["tuple_len"] = len(t)
+        stable = {}
+        for name, v in zip(members, t):
+            if name in ("totalram", "totalswap", "mem_unit"):
+                stable[name] = (v, getattr(si, name))
+        info["stable_members"] = {k: list(v) for k, v in stable.items()}
+        ok = len(t) == len(members) and all(a == b for a, b in stable.values()) and len(stable) == 3
+        swap_total_kb = None
+        for line in open("/proc/meminfo", "rb"):
+            if line.startswith(b"SwapTotal:"):
+                swap_total_kb = int(line.split()[1])
+        if swap_total_kb is not None and ok:
+            ok = t[members.index("totalswap")] * t[members.index("mem_unit")] == swap_total_kb * 1024
+            info["swaptotal_bytes"] = swap_total_kb * 1024
+        info["ok"] = ok
+        res.count("sysinfo_native_live")
+        if not ok:
+            res.disagree("model", {"op": "sysinfo_native", "source": "live"}, {"tuple": list(t)}, info, None,
+                         note="cext.linux_sysinfo() does not return struct sysinfo's members in the order of fact sysinfoCMembers")
+    except (OSError, ValueError, AttributeError) as e:
+        info["error"] = "%s: %s" % (type(e).__name__, e)
+        res.notes.append("native sysinfo validation skipped: %s" % info["error"])
+    res.extra["sysinfo_native"] = info
+
+
 # ------------------------------------------------------------------------------ correspondence
 
 
@@ -839,10 +1122,13 @@ def correspond(ctx, res):
     t_start = time.time()
     impl = Impl(ctx)
     try:
-        res.rule = ("kernel states (meminfo entries, zoneinfo lines, vmstat lines, sysinfo triple) from 17 "
+        res.rule = ("kernel states (meminfo entries, zoneinfo lines, vmstat lines, the 7 members of struct sysinfo) from 17 "
                     "clause-directed virtual_memory families and all SwapTotal/SwapFree × vmstat-shape × magnitude "
                     "combinations for swap_memory (PRNG from VERIF_SEED), plus EVERY subset of the 14 optional "
-                    "meminfo keys under fixed magnitude profiles, plus malformed text (model-only); rendered by the "
+                    "meminfo keys under fixed magnitude profiles, plus malformed and arbitrary-byte text (int() literal "
+                    "shapes, broken `low` lines consulted or not, clashing/repeated vmstat names, byte soup) compared "
+                    "with the model and with the theorem-backed outcome characterisation, plus virtual_memory() → "
+                    "changed meminfo → Process.memory_percent() sequences; rendered by the "
                     "Lean renderers into a fake procfs; non-trivial = an optional key is missing or a "
                     "fallback/clamp/warning branch is taken; distinct = distinct inputs")
         rng = ctx.rng
@@ -876,19 +1162,25 @@ def correspond(ctx, res):
                         cases.append(gen_swap(rng, keys, vstyle, prof))
                         srcs.append("swap:%s" % vstyle)
                         n_swap += 1
-        for c in raw_swap_cases():
+        for c in raw_swap_cases(rng, ctx.n(120, 4000)):
             cases.append(c)
             srcs.append("swap:raw")
+        for c in phymem_cases(rng, ctx.n(60, 1500)):
+            cases.append(c)
+            srcs.append("phymem")
         rows = run_cases(ctx, impl, cases)
         res.extra["run_cases_s"] = round(time.time() - t_start, 1)
         for (case, im, out), src in zip(rows, srcs):
             tags = vm_tags(case, out) if case["op"] == "vm" else swap_tags(case, out) if case["op"] == "swap" else set()
+            if case["op"] == "swapraw" and out["model"]["kind"] == "ok":
+                tags.add("vmstat_raw:" + ("no_pair→warn" if out["model"]["warned"] else "pair"))
             res.count("family:" + src)
             for t in tags:
                 res.count("branch:" + t)
             if case["op"] in ("vm", "swap"):
                 res.count("entries", len(case["entries"]))
-            nontriv = bool(tags - {"avail:kernel_estimate", "swap:meminfo", "vmstat:both"}) or case["op"].endswith("raw")
+            nontriv = bool(tags - {"avail:kernel_estimate", "swap:meminfo", "vmstat:both"}) or case["op"].endswith("raw") \
+                or case["op"] == "phymem"
             res.case(case, nontrivial=nontriv,
                      sample={"source": src, "input": case, "impl": im} if len(res.samples) < 6 and res.evaluations % 997 == 3 else None)
             compare(case, im, out, res, src)
@@ -902,6 +1194,7 @@ def correspond(ctx, res):
         res.extra["exhaustive_cases"] = n_exh
         res.extra["swap_cases"] = n_swap
         validate_renderers(ctx, res)
+        validate_sysinfo_native(ctx, res)
         res.extra["correspond_s"] = round(time.time() - t_start, 1)
     finally:
         impl.close()
@@ -924,9 +1217,14 @@ def corpus():
     yield {"op": "vm", "entries": [e("MemTotal", 0), e("MemFree", 0)], "zones": None, "pagesize": 4096}, "corpus:zero_total"
     yield {"op": "vm", "entries": [e("MemTotal", 100), e("MemFree", 400), e("MemAvailable", 500)], "zones": None, "pagesize": 4096}, "corpus:free_gt_total"
     yield {"op": "vm", "entries": base + [e("Active(file)", 3), e("Inactive(file)", 0), e("SReclaimable", 1)], "zones": [["low", 8, 1, 0]], "pagesize": 4096}, "corpus:odd_halves"
-    yield {"op": "swap", "entries": [e("SwapTotal", 0), e("SwapFree", 0)], "sysinfo": [5, 3, 4096], "vmstat": [[hx("pswpin"), 1], [hx("pswpout"), 2]]}, "corpus:swap_zero_total"
-    yield {"op": "swap", "entries": [e("SwapTotal", 10)], "sysinfo": [5, 3, 4096], "vmstat": None}, "corpus:swap_sysinfo_no_vmstat"
-    yield {"op": "swap", "entries": [e("SwapTotal", 10), e("SwapFree", 4)], "sysinfo": [5, 3, 4096], "vmstat": [[hx("pswpin"), 5]]}, "corpus:swap_only_pswpin"
+    yield {"op": "swap", "entries": [e("SwapTotal", 0), e("SwapFree", 0)], "sysinfo": sysc(5, 3, 4096), "vmstat": [[hx("pswpin"), 1], [hx("pswpout"), 2]]}, "corpus:swap_zero_total"
+    yield {"op": "swap", "entries": [e("SwapTotal", 10)], "sysinfo": sysc(5, 3, 4096), "vmstat": None}, "corpus:swap_sysinfo_no_vmstat"
+    yield {"op": "swap", "entries": [e("SwapTotal", 10), e("SwapFree", 4)], "sysinfo": sysc(5, 3, 4096), "vmstat": [[hx("pswpin"), 5]]}, "corpus:swap_only_pswpin"
+    # witness of C08_swap_prefix_clash_reads_other_counter: sin = 9 * 4096 (model-only: outside VWF.noClash)
+    yield {"op": "swapraw", "meminfo": b"SwapTotal: 1000 kB\nSwapFree: 400 kB\n".hex(), "sysinfo": sysc(5, 3, 4096),
+           "vmstat": b"pswpin 5\npswpin_x 9\npswpout 3\n".hex(), "expect_sin": 9 * 4096}, "corpus:swap_prefix_clash"
+    # sysinfo fallback with mem_unit = 4096: bytes = count × unit (C08_swap_sysinfo_bytes)
+    yield {"op": "swap", "entries": [e("MemTotal", 10)], "sysinfo": sysc(25, 10, 4096), "vmstat": None}, "corpus:swap_sysinfo_unit"
 
 
 def search(ctx, res, broken):
